@@ -1093,10 +1093,13 @@ static void gen(const char *, RunSpec &spec)
 		// ---- main phase
 		if (backlog && cyc == 0) {
 			if (!started) { g.emit(K_THREAD_START); started = true; }
-			int64_t n = r.range(126, 190);
+			// now and then far beyond the limit, so that more than a limit's worth of messages is dropped, and logging
+			// goes on after the worker has caught up (the accounting of dropped messages must not linger)
+			bool far = r.chance(1, 4);
+			int64_t n = far ? r.range(260, 420) : r.range(126, 190);
 			if (r.chance(1, 3)) g.emit(K_LOG, r.range(1, 5), g.pick_size(), 1);
 			g.emit(K_LOG, n, 4093, 1);
-			if (r.chance(1, 2)) { g.emit(K_SLEEP, r.range(1, 500)); g.emit(K_LOG, r.range(1, 20), r.chance(1, 2) ? 4093 : g.pick_size(), 1); }
+			if (far || r.chance(1, 2)) { g.emit(K_SLEEP, far ? r.range(400, 900) : r.range(1, 500)); g.emit(K_LOG, r.range(1, 20), r.chance(1, 2) ? 4093 : g.pick_size(), 1); }
 			if (r.chance(1, 3)) g.emit(K_ENABLE, 0, 0);
 			if (g.nprod && r.chance(1, 2)) g.emit(K_BURST, r.range(0, 6), r.range(1, 8), r.range(0, 8), 4093, 1);
 		} else {
